@@ -680,9 +680,154 @@ def run_c20(tier, replay=None):
                               "stub": ["none below the process; faults by strace injection and a full tmpfs"]})
 
 
+# ------------------------------------------------------------------------- C08 / C19 disk faults
+
+def diskfault_template(args):
+    """E3 extension of C08 and C19: the output directory of save_target / cache sits on a tmpfs
+    with a chosen amount of free space (a genuinely full or nearly full disk: ENOSPC, short
+    writes), or single writes to the cached metadata files fail with EIO / ENOSPC (strace).
+    Oracle: success reported => the copy is complete (and, for cache, loads); a file that is
+    present under a target's name is never incomplete."""
+    prop, ti, seed, tier = args
+    rnd = random.Random(seed * 104729 + ti)
+    W = os.path.join(RUN_DIR, "%s-d%d" % (prop, ti))
+    shutil.rmtree(W, ignore_errors=True)
+    os.makedirs(W)
+    res = {"runs": 0, "fired": 0, "violations": [], "faults": {}, "states": set(), "nontrivial": set(), "sample": None, "harness": [], "unmodelled": set()}
+    out = os.path.join(W, "out")
+    mounted = False
+    try:
+        world = rnd.randrange(1, 10 ** 6)
+        consistent = rnd.random() < 0.5 if prop == "C19" else False
+        sizes = {"a.bin": rnd.choice([1, 100, 3000, 4096, 4097, 9000]), "b.bin": rnd.choice([0, 700, 5000, 20000])}
+        repo = os.path.join(W, "repo")
+        cmd = [SIM, "mkrepo", "--out", repo, "--world", str(world), "--versions", "1,2,2,2,1"]
+        for n, sz in sizes.items():
+            cmd += ["--target", "%s:%d" % (n, sz)]
+        if consistent:
+            cmd.append("--consistent")
+        if sh(cmd).returncode != 0:
+            res["harness"].append("mkrepo failed")
+            return finish(res, W)
+        tmpl = {"world": world, "consistent": consistent, "sizes": sizes}
+        res["sample"] = tmpl
+        src = {}
+        for root, _, files in os.walk(os.path.join(repo, "targets")):
+            for f in files:
+                p = os.path.join(root, f)
+                src[os.path.relpath(p, os.path.join(repo, "targets"))] = open(p, "rb").read()
+        os.makedirs(out)
+        if sh(["mount", "-t", "tmpfs", "-o", "size=128k", "tmpfs", out]).returncode != 0:
+            res["harness"].append("cannot mount tmpfs")
+            return finish(res, W)
+        mounted = True
+        page = 4096
+        levels = list(range(0, 20)) if tier == "thorough" else sorted(rnd.sample(range(0, 20), 9))
+
+        def client(op, extra):
+            ds = os.path.join(W, "ds")
+            shutil.rmtree(ds, ignore_errors=True)
+            os.makedirs(ds)
+            return client_cmd(repo, ds) + ["--op", op] + extra
+
+        for free_pages in levels:
+            for n in os.listdir(out):
+                p = os.path.join(out, n)
+                shutil.rmtree(p) if os.path.isdir(p) else os.unlink(p)
+            stv = os.statvfs(out)
+            fill = stv.f_bavail * stv.f_frsize - free_pages * page
+            try:
+                with open(os.path.join(out, ".filler"), "wb") as f:
+                    f.write(b"\0" * max(0, fill))
+            except OSError:
+                pass
+            fault = {"kind": "disk-full", "free_pages": free_pages}
+            if prop == "C19":
+                r = sh(client("cache", ["--out", out]))
+            else:
+                name = rnd.choice(sorted(sizes))
+                fault["name"] = name
+                r = sh(client("save", ["--out", out, "--name", name]))
+            res["runs"] += 1
+            res["fired"] += 1
+            res["faults"]["disk-full"] = res["faults"].get("disk-full", 0) + 1
+            try:
+                os.unlink(os.path.join(out, ".filler"))
+            except OSError:
+                pass
+            ctx = {"template": tmpl, "template_index": ti, "tier": tier, "fault": fault, "exit": r.returncode, "engine": "procsim"}
+            if prop == "C19":
+                tdir = os.path.join(out, "targets")
+                present = {}
+                if os.path.isdir(tdir):
+                    for root, _, files in os.walk(tdir):
+                        for f in files:
+                            p = os.path.join(root, f)
+                            present[os.path.relpath(p, tdir)] = open(p, "rb").read()
+                bad = sorted(n for n, b in present.items() if n in src and b != src[n])
+                stray = sorted(n for n in present if n not in src)
+                if bad:
+                    res["violations"].append(dict(ctx, key="incomplete-target-stored-in-clone:disk-full", detail="targets %s are present in the clone but differ from the source (exit %d)" % (bad, r.returncode)))
+                if r.returncode == 0:
+                    rr = sh([SIM, "client", "--root", os.path.join(repo, "root.json"), "--meta", os.path.join(out, "metadata"), "--targets", tdir, "--datastore", os.path.join(W, "ds2")] if os.makedirs(os.path.join(W, "ds2"), exist_ok=True) is None else [])
+                    shutil.rmtree(os.path.join(W, "ds2"), ignore_errors=True)
+                    if rr.returncode != 0:
+                        sizes_now = {n: os.path.getsize(os.path.join(out, "metadata", n)) for n in sorted(os.listdir(os.path.join(out, "metadata")))} if os.path.isdir(os.path.join(out, "metadata")) else {}
+                        res["violations"].append(dict(ctx, key="cache-reported-success-but-clone-does-not-load:disk-full", detail="cache() exited 0 with %d free pages, loading the clone exits %d; metadata sizes %s" % (free_pages, rr.returncode, sizes_now)))
+                    elif len(present) != len(src) or stray:
+                        res["violations"].append(dict(ctx, key="cache-reported-success-but-targets-missing:disk-full", detail="clone holds %s of %s" % (sorted(present), sorted(src))))
+                    res["nontrivial"].add(("cache", free_pages, "ok"))
+                else:
+                    res["nontrivial"].add(("cache", free_pages, "refused"))
+                res["states"].add(("cache", free_pages, r.returncode == 0))
+            else:
+                name = fault["name"]
+                p = os.path.join(out, name)
+                stray = sorted(n for n in os.listdir(out) if n != name)
+                want = src[name]
+                if os.path.exists(p):
+                    got = open(p, "rb").read()
+                    if got != want:
+                        res["violations"].append(dict(ctx, key="incomplete-file-at-destination:disk-full:%s" % ("success-reported" if r.returncode == 0 else "error-reported"),
+                                                      detail="save_target of %s (%d bytes) with %d free pages exited %d and left %d bytes at the destination" % (name, len(want), free_pages, r.returncode, len(got))))
+                elif r.returncode == 0:
+                    res["violations"].append(dict(ctx, key="save-reported-success-but-no-file:disk-full", detail="exit 0, no file"))
+                if stray:
+                    res["violations"].append(dict(ctx, key="stray-files-after-save:disk-full", detail="%s" % stray))
+                res["states"].add(("save", free_pages, r.returncode == 0))
+                res["nontrivial"].add(("save", name, free_pages, r.returncode == 0))
+    except Exception as e:  # noqa
+        import traceback
+        res["harness"].append("exception: %r %s" % (e, traceback.format_exc()[-400:]))
+    finally:
+        if mounted:
+            sh(["umount", out])
+    return finish(res, W)
+
+
+def run_diskfault(prop, tier, replay=None):
+    t0 = time.time()
+    known = known_findings(prop)
+    if replay:
+        spec = json.load(open(replay))
+        r = diskfault_template((prop, spec["template_index"], spec.get("seed", SEED), spec.get("tier", "quick")))
+        for v in r["violations"]:
+            if v["key"] == spec["key"]:
+                print("VIOLATION property=%s replay=%s" % (prop, replay))
+                print("  key=%s detail=%s" % (v["key"], v["detail"]))
+                return 1
+        print("replay did not violate")
+        return 0
+    n = 16 if tier == "quick" else 200
+    print("check=%s (E3 disk-fault extension) tier=%s VERIF_SEED=%d templates=%d" % (prop, tier, SEED, n), flush=True)
+    with multiprocessing.Pool(THREADS) as pool:
+        results = pool.map(diskfault_template, [(prop, i, SEED, tier) for i in range(n)])
+    return report(prop, tier, results, known, t0, rule="", level="", assumptions=[], components={}, merge=True)
+
+
 # ------------------------------------------------------------------------------------------ report
 
-def report(prop, tier, results, known, t0, rule, level, assumptions, components):
+def report(prop, tier, results, known, t0, rule, level, assumptions, components, merge=False):
     runs = sum(r["runs"] for r in results)
     fired = sum(r["fired"] for r in results)
     faults = {}
@@ -743,7 +888,19 @@ def report(prop, tier, results, known, t0, rule, level, assumptions, components)
         "assumptions": assumptions, "wall_s": round(wall, 3), "violations": reported,
     }
     os.makedirs(os.path.join(VERIF, "evidence"), exist_ok=True)
-    json.dump(ev, open(os.path.join(VERIF, "evidence", prop + ".json"), "w"), indent=1)
+    evp = os.path.join(VERIF, "evidence", prop + ".json")
+    if merge and os.path.exists(evp):
+        # extension of a check whose main evidence was written by the in-process engine
+        base = json.load(open(evp))
+        base["coverage"]["e3_disk_fault_extension"] = {
+            "evaluations": runs, "faults_fired": faults, "distinct_outcomes": len(nontrivial), "violations": reported,
+            "what": "save_target / cache with the output directory on a tmpfs with 0..19 free pages (real ENOSPC and short writes) in a separate traced-less client process; oracle: success reported => complete copy that loads; no incomplete file under a target's name",
+            "samples": samples[:2], "known_findings_matched": matched, "harness_messages": harness[:5], "wall_s": round(wall, 2)}
+        base["violations"] = base.get("violations", 0) + reported
+        base["wall_s"] = round(base.get("wall_s", 0) + wall, 3)
+        json.dump(base, open(evp, "w"), indent=1)
+    else:
+        json.dump(ev, open(evp, "w"), indent=1)
     print("done: evaluations=%d fired=%d distinct_states=%d nontrivial=%d violations=%d wall=%.1fs" % (runs, fired, len(states), len(nontrivial), reported, wall))
     shutil.rmtree(RUN_DIR, ignore_errors=True)
     return exit_code
@@ -765,6 +922,8 @@ def main():
         return run_c15(mode)
     if prop == "C20":
         return run_c20(mode, replay)
+    if prop in ("C08", "C19"):
+        return run_diskfault(prop, mode, replay)
     return 2
 
 
